@@ -8,7 +8,7 @@ use refimpl::wire::{self, DataBody, FpUpdate, InputEvent, Rect};
 use serde::{Deserialize, Serialize};
 
 pub const LEVEL: &str = "exploration";
-pub const RULE: &str = "case = history of 1..40 steps over {pointer(x, y, button, down), key(code, down), unsendable event (RdpEvent::Bitmap), server traffic (fast-path bitmap, set-error-info)} submitted through write or try_write on an activated session with a generated user id / share id. Oracle: the reference server's strictly decoded list of slow-path input PDUs equals the submitted sendable events one to one and in order: one PDU per event, numEvents = 1, message type 0x8001 / 0x0004, exact x / y / scancode, button flags Left/Right/Middle = 0x1000/0x2000/0x4000 with DOWN (0x8000) iff down, no button = MOVE (0x0800) without button bits, RELEASE (0x8000) iff key up; MCS initiator / channel / share id as negotiated; unsendable kinds return Err and write zero bytes. button-matrix enumerates all 8 button x state combinations at boundary coordinates. Non-trivial = history with >= 2 sendable events; distinct by hash of the case.";
+pub const RULE: &str = "case = history of 1..40 steps over {pointer(x, y, button, down), key(code, down), unsendable event (RdpEvent::Bitmap), server traffic (fast-path bitmap, set-error-info)} submitted through write or try_write on an activated session with a generated user id / share id. Oracle: the reference server's strictly decoded list of slow-path input PDUs equals the submitted sendable events one to one and in order: one PDU per event, numEvents = 1, message type 0x8001 / 0x0004, exact x / y / scancode, button flags Left/Right/Middle = 0x1000/0x2000/0x4000 with DOWN (0x8000) iff down, no button = MOVE (0x0800) without button bits, RELEASE (0x8000) iff key up; MCS initiator / channel / share id as negotiated; unsendable kinds return Err and write zero bytes. button-matrix enumerates all 8 button x state combinations at boundary coordinates; all-values sends every scancode 0..=0xFFFF (press and release) and every value 0..=0xFFFF as x and as y coordinate (256 values per session, write and try_write mixed); long-histories are sessions of 3000 events with exact repetitions, interleaved server traffic and refused events; generated histories repeat the previous event 1..3 times with probability 1/6. Non-trivial = history with >= 2 sendable events; distinct by hash of the case.";
 
 #[derive(Serialize, Deserialize, Hash, Clone, Debug)]
 pub enum Step {
@@ -270,16 +270,74 @@ pub fn run_tls(c: &Case) -> Outcome {
 
 pub fn decode(s: &mut Src) -> Case {
     let n = 1 + s.below(40);
-    let steps = (0..n)
-        .map(|_| match s.below(12) {
+    let mut steps: Vec<Step> = Vec::new();
+    for _ in 0..n {
+        // exact repetitions (the 2nd, 3rd ... occurrence of the same event must be sent like the first)
+        if !steps.is_empty() && s.chance(40) {
+            let k = 1 + s.below(3);
+            let prev = steps[steps.len() - 1].clone();
+            for _ in 0..k {
+                steps.push(prev.clone());
+            }
+            continue;
+        }
+        steps.push(match s.below(12) {
             0 => Step::Unsendable { lenient: s.bool() },
             1 => Step::ServerBitmap,
             2 => Step::ServerError(s.b32()),
             3 | 4 | 5 => Step::Key { code: s.b16(), down: s.bool(), lenient: s.chance(64) },
             _ => Step::Pointer { x: s.b16(), y: s.b16(), button: s.below(4) as u8, down: s.bool(), lenient: s.chance(64) },
-        })
-        .collect();
+        });
+    }
     Case { steps, user_id: crate::gen::gen_user_id(s), share_id: s.b32() }
+}
+
+/// every scancode 0..=0xFFFF pressed and released, every value 0..=0xFFFF as x and as y coordinate with every
+/// button / state, 256 values per session
+fn all_values(part: usize, parts: usize) -> impl Iterator<Item = Case> {
+    (part..512).step_by(parts).map(|i| {
+        let block = (i / 2) as u32 * 256;
+        let mut steps = Vec::new();
+        for k in 0..256u32 {
+            let v = (block + k) as u16;
+            if i % 2 == 0 {
+                steps.push(Step::Key { code: v, down: true, lenient: k % 5 == 0 });
+                steps.push(Step::Key { code: v, down: false, lenient: k % 7 == 0 });
+            } else {
+                steps.push(Step::Pointer { x: v, y: !v, button: (k % 4) as u8, down: (k / 4) % 2 == 0, lenient: k % 5 == 0 });
+                steps.push(Step::Pointer { x: v.rotate_left(5), y: v, button: ((k / 8) % 4) as u8, down: (k / 2) % 2 == 0, lenient: k % 7 == 0 });
+            }
+        }
+        Case { steps, user_id: 1004 + (i as u16 % 3), share_id: 0x000103EA ^ (i as u32) << 8 }
+    })
+}
+
+/// sessions with thousands of events (state carried from one write to the next: counters, buffers, coalescing)
+fn long_histories() -> Vec<Case> {
+    let mut v = Vec::new();
+    for variant in 0..4u32 {
+        let mut steps = Vec::new();
+        for k in 0..3000u32 {
+            let st = match (k.wrapping_mul(2654435761).wrapping_add(variant) >> 13) % 9 {
+                0 | 1 => Step::Key { code: (k % 128) as u16, down: k % 2 == 0, lenient: k % 11 == 0 },
+                2 => Step::Key { code: 0x1D, down: true, lenient: false },
+                3 | 4 => Step::Pointer { x: (k % 1920) as u16, y: (k % 1080) as u16, button: 0, down: false, lenient: k % 13 == 0 },
+                5 => Step::Pointer { x: 100, y: 100, button: 1, down: k % 2 == 0, lenient: false },
+                6 => Step::Pointer { x: 100, y: 100, button: 0, down: false, lenient: false },
+                7 => {
+                    if variant % 2 == 0 {
+                        Step::ServerBitmap
+                    } else {
+                        Step::Unsendable { lenient: k % 2 == 0 }
+                    }
+                }
+                _ => Step::Pointer { x: (k * 7 % 65536) as u16, y: (k * 13 % 65536) as u16, button: (k % 4) as u8, down: k % 3 == 0, lenient: false },
+            };
+            steps.push(st);
+        }
+        v.push(Case { steps, user_id: 1004, share_id: 0x000103EA });
+    }
+    v
 }
 
 fn matrix() -> Vec<Case> {
@@ -298,6 +356,8 @@ pub fn check(rep: &Report) {
     rep.assume("for PointerButton::None the DOWN bit is unconstrained (a move carries no button)");
     rep.assume("keyboard flags other than RELEASE and the EXTENDED bits are unconstrained");
     rep.list("button-matrix", matrix(), run);
+    rep.enumerate("all-values", true, all_values, run);
+    rep.list("long-histories", long_histories(), run);
     rep.random("histories", rep.tier.n(60_000, 3_000_000), 260, decode, run);
     crate::tls::pki();
     rep.random("tls", rep.tier.n(300, 10_000), 200, decode, run_tls);
